@@ -39,14 +39,16 @@ def config_values(exclude=(), max_depth=4, bool_weight=3):
 
 
 STYLE = st.fixed_dictionaries({
-    "sep": st.sampled_from([",", ";", ", ", " ; ", ",  "]),
+    # "spaces optional": a configuration typed over several lines, with tabs, or read from a file with its line end still attached
+    "sep": st.sampled_from([",", ";", ", ", " ; ", ",  ", ",\n", ",\t", ";\r\n"]),
+    "tail": st.sampled_from(["", "", "", "\n", " ", "\r\n", ","]),
     "eq": st.sampled_from([".", "=", "."]),
     "explicit_true": st.booleans(),
     "long_dir": st.booleans(),
     "long_layout": st.booleans(),
     "order": st.integers(0, 1000),
 })
-PLAIN_STYLE = {"sep": ",", "eq": ".", "explicit_true": False, "long_dir": False, "long_layout": False, "order": 0}
+PLAIN_STYLE = {"sep": ",", "tail": "", "eq": ".", "explicit_true": False, "long_dir": False, "long_layout": False, "order": 0}
 
 
 def to_text(cfg, style=None):
@@ -70,7 +72,7 @@ def to_text(cfg, style=None):
             parts.append(f"layout{eq}{v}" if style["long_layout"] else v)
         else:
             parts.append(f"{k}{eq}{v}")
-    return style["sep"].join(parts)
+    return style["sep"].join(parts) + (style.get("tail", "") if parts else "")
 
 
 def to_kwargs(cfg, allowed):
